@@ -4,6 +4,7 @@ import Mathlib.Algebra.Field.Basic
 import Mathlib.Tactic.Ring
 import Mathlib.Tactic.FieldSimp
 import Mathlib.Tactic.LinearCombination
+import Mathlib.AlgebraicGeometry.EllipticCurve.Affine.Point
 /-
   Ark.Proofs.CurveA — helper lemmas for property C03 (short Weierstrass part):
   the Jacobian formulas of `Ark.Curve.SW` compute the textbook affine chord-and-tangent law.
@@ -22,6 +23,15 @@ def mk (x y z : F) : Jac F := ⟨x * (z * z), y * (z * z * z), z⟩
 theorem toAff_mk (x y z : F) (hz : z ≠ 0) : toAff (mk x y z) = some (x, y) := by
   simp only [toAff, mk, hz, if_false]
   congr 2 <;> field_simp
+
+/-- independence of the representative: rescaling by `l ≠ 0` does not change the denoted point -/
+theorem toAff_rescale (x y z l : F) (hl : l ≠ 0) :
+    toAff ⟨x * (l * l), y * (l * l * l), z * l⟩ = toAff ⟨x, y, z⟩ := by
+  by_cases hz : z = 0
+  · simp [toAff, hz]
+  · have hzl : z * l ≠ 0 := mul_ne_zero hz hl
+    simp only [toAff, hz, hzl, if_false]
+    congr 2 <;> field_simp
 
 theorem toAff_of_z_eq_zero {p : Jac F} (h : p.z = 0) : toAff p = none := by
   simp only [toAff, if_pos h]
@@ -584,7 +594,7 @@ theorem isOnCurve_eq (c : Curve F) (hA : ∀ e, c.mulByA e = c.a * e) (a : Affin
   cases hi : a.infinity
   · simp only [Bool.false_eq_true, if_false, onCurve, addB, sq, hA]
     apply decide_eq_decide.2
-    by_cases ha : c.a = 0 <;> by_cases hb : c.b = 0 <;> simp [ha, hb]
+    by_cases ha : c.a = 0 <;> by_cases hb : c.b = 0 <;> simp [ha, hb, add_right_comm]
   · simp [onCurve]
 
 theorem std_mulByA (a b : F) (d : Bool) (e : F) : (Curve.std a b d).mulByA e = (Curve.std a b d).a * e := by
@@ -592,5 +602,119 @@ theorem std_mulByA (a b : F) (d : Bool) (e : F) : (Curve.std a b d).mulByA e = (
   by_cases h : a = 0
   · simp [h]
   · simp [h, mul_comm]
+
+
+/-! ### bridge to Mathlib's group of nonsingular points -/
+
+/-- Mathlib's Weierstrass curve `y² = x³ + a x + b` -/
+def wcurve (a b : F) : WeierstrassCurve.Affine F := ⟨0, 0, 0, a, b⟩
+
+/-- the spec-level point denoted by a Mathlib point -/
+def ofPoint {a b : F} : (wcurve a b).Point → Option (F × F)
+  | .zero => none
+  | .some x y _ => some (x, y)
+
+theorem wcurve_equation_iff (a b x y : F) :
+    (wcurve a b).Equation x y ↔ y * y = x * x * x + a * x + b := by
+  rw [WeierstrassCurve.Affine.equation_iff]
+  simp only [wcurve, zero_mul, add_zero]
+  constructor <;> intro h <;> linear_combination h
+
+theorem wcurve_Δ (a b : F) : (wcurve a b).Δ = -16 * (4 * a ^ 3 + 27 * b ^ 2) := by
+  simp only [WeierstrassCurve.Δ, WeierstrassCurve.b₂, WeierstrassCurve.b₄, WeierstrassCurve.b₆,
+    WeierstrassCurve.b₈, wcurve]
+  ring
+
+theorem onCurve_ofPoint {a b : F} (P : (wcurve a b).Point) : onCurve a b (ofPoint P) = true := by
+  rcases P with _ | ⟨x, y, h⟩
+  · rfl
+  · exact (onCurve_some a b x y).2 ((wcurve_equation_iff a b x y).1 h.1)
+
+theorem ofPoint_injective {a b : F} : Function.Injective (ofPoint (a := a) (b := b)) := by
+  rintro (_ | ⟨x1, y1, h1⟩) (_ | ⟨x2, y2, h2⟩) h
+  · rfl
+  · simp [ofPoint] at h
+  · simp [ofPoint] at h
+  · simp only [ofPoint, Option.some.injEq, Prod.mk.injEq] at h
+    obtain ⟨rfl, rfl⟩ := h
+    rfl
+
+theorem ofPoint_zero {a b : F} : ofPoint (0 : (wcurve a b).Point) = none := rfl
+
+theorem ofPoint_neg {a b : F} (P : (wcurve a b).Point) : ofPoint (-P) = affNeg (ofPoint P) := by
+  rcases P with _ | ⟨x, y, h⟩
+  · rfl
+  · rw [WeierstrassCurve.Affine.Point.neg_some]
+    simp [ofPoint, affNeg, wcurve]
+
+/-- on a non-singular curve every point of the curve is a Mathlib point -/
+theorem exists_point {a b : F} (hΔ : (wcurve a b).Δ ≠ 0) (P : Option (F × F))
+    (hP : onCurve a b P = true) : ∃ Q : (wcurve a b).Point, ofPoint Q = P := by
+  rcases P with _ | ⟨x, y⟩
+  · exact ⟨0, rfl⟩
+  · have he : (wcurve a b).Equation x y := (wcurve_equation_iff a b x y).2 ((onCurve_some a b x y).1 hP)
+    exact ⟨.some x y ((WeierstrassCurve.Affine.equation_iff_nonsingular_of_Δ_ne_zero hΔ).1 he), rfl⟩
+
+/-- `affAdd` is Mathlib's addition of nonsingular points -/
+theorem ofPoint_add {a b : F} (P Q : (wcurve a b).Point) :
+    ofPoint (P + Q) = affAdd a (ofPoint P) (ofPoint Q) := by
+  rcases P with _ | ⟨x1, y1, h1⟩
+  · show ofPoint (0 + Q) = _
+    rw [zero_add]; exact (affAdd_none_left a _).symm
+  rcases Q with _ | ⟨x2, y2, h2⟩
+  · show ofPoint (_ + 0) = _
+    rw [add_zero]; exact (affAdd_none_right a _).symm
+  have e1 := (wcurve_equation_iff a b x1 y1).1 h1.1
+  have e2 := (wcurve_equation_iff a b x2 y2).1 h2.1
+  have hneg : (wcurve a b).negY x2 y2 = - y2 := by simp [wcurve]
+  by_cases hx : x1 = x2
+  · subst hx
+    by_cases hy : y1 + y2 = 0
+    · have hy' : y1 = (wcurve a b).negY x1 y2 := by rw [hneg]; linear_combination hy
+      rw [WeierstrassCurve.Affine.Point.add_of_Y_eq rfl hy']
+      exact (affAdd_opposite a x1 y1 y2 hy).symm
+    · have hy' : y1 ≠ (wcurve a b).negY x1 y2 := by
+        rw [hneg]; intro h; exact hy (by rw [h]; ring)
+      have hyy : y1 = y2 := (y_eq_or_neg e1 e2).resolve_right hy
+      subst hyy
+      rw [WeierstrassCurve.Affine.Point.add_of_Y_ne hy']
+      simp only [ofPoint]
+      rw [WeierstrassCurve.Affine.slope_of_Y_ne rfl hy']
+      simp only [affAdd, hy, and_false, if_false, if_true, WeierstrassCurve.Affine.addX,
+        WeierstrassCurve.Affine.addY, WeierstrassCurve.Affine.negAddY,
+        WeierstrassCurve.Affine.negY, wcurve, Option.some.injEq, Prod.mk.injEq]
+      constructor <;> · simp only [div_eq_mul_inv]; ring
+  · rw [WeierstrassCurve.Affine.Point.add_of_X_ne hx]
+    simp only [ofPoint]
+    rw [WeierstrassCurve.Affine.slope_of_X_ne hx]
+    have hs : (y1 - y2) / (x1 - x2) = (y2 - y1) * (x2 - x1)⁻¹ := by
+      rw [← neg_sub y2 y1, ← neg_sub x2 x1, neg_div_neg_eq, div_eq_mul_inv]
+    rw [hs]
+    simp only [affAdd, hx, false_and, if_false, WeierstrassCurve.Affine.addX,
+      WeierstrassCurve.Affine.addY, WeierstrassCurve.Affine.negAddY,
+      WeierstrassCurve.Affine.negY, wcurve, Option.some.injEq, Prod.mk.injEq]
+    constructor <;> ring
+
+/-- associativity of the affine law on a non-singular curve, from Mathlib's group structure -/
+theorem affAdd_assoc {a b : F} (hΔ : (wcurve a b).Δ ≠ 0) (P Q R : Option (F × F))
+    (hP : onCurve a b P = true) (hQ : onCurve a b Q = true) (hR : onCurve a b R = true) :
+    affAdd a (affAdd a P Q) R = affAdd a P (affAdd a Q R) := by
+  obtain ⟨P', rfl⟩ := exists_point hΔ P hP
+  obtain ⟨Q', rfl⟩ := exists_point hΔ Q hQ
+  obtain ⟨R', rfl⟩ := exists_point hΔ R hR
+  rw [← ofPoint_add, ← ofPoint_add, ← ofPoint_add, ← ofPoint_add, add_assoc]
+
+theorem affAdd_comm {a b : F} (hΔ : (wcurve a b).Δ ≠ 0) (P Q : Option (F × F))
+    (hP : onCurve a b P = true) (hQ : onCurve a b Q = true) :
+    affAdd a P Q = affAdd a Q P := by
+  obtain ⟨P', rfl⟩ := exists_point hΔ P hP
+  obtain ⟨Q', rfl⟩ := exists_point hΔ Q hQ
+  rw [← ofPoint_add, ← ofPoint_add, add_comm]
+
+theorem affAdd_neg_self {a : F} (P : Option (F × F)) :
+    affAdd a P (affNeg P) = none := by
+  rcases P with _ | ⟨x, y⟩
+  · rfl
+  · exact affAdd_opposite a x y (-y) (by ring)
 
 end Ark.Curve.SW
